@@ -535,6 +535,10 @@ func (sf *file) GetPassthroughFd(mergeBufferSize int64, mergeWorkerCount int) (u
 		if chunkSize > mergeBufferSize {
 			hasLargeChunk = true
 		}
+		// A chunk crossing a merge buffer boundary does not fit the per-batch buffer either
+		if mergeBufferSize > 0 && chunkOffset/mergeBufferSize != (chunkOffset+chunkSize-1)/mergeBufferSize {
+			hasLargeChunk = true
+		}
 		chunks = append(chunks, chunkData{
 			offset:    chunkOffset,
 			size:      chunkSize,
